@@ -25,6 +25,7 @@ import (
 	"encoding/binary"
 	"encoding/json"
 	"encoding/pem"
+	"flag"
 	"fmt"
 	"io"
 	mrand "math/rand"
@@ -985,7 +986,7 @@ func genCase(r *mrand.Rand, pool []*poolEntry, id int) *caseSpec {
 				}
 				ps.replies[anyPos()] = append(sc, last)
 			}
-			if f(12) {
+			if f(8) {
 				act := "cancel"
 				if c.ep == "RunWhenMaster" && r.Intn(2) == 0 {
 					act = "lose"
@@ -1003,7 +1004,7 @@ func genCase(r *mrand.Rand, pool []*poolEntry, id int) *caseSpec {
 					npass++ // the run goes on after mastership is regained
 				}
 			}
-			if f(40) && c.ep == "RunWhenMaster" {
+			if f(25) && c.ep == "RunWhenMaster" {
 				ps.root = "lose"
 				npass++
 			}
@@ -1135,7 +1136,11 @@ func TestHarness(t *testing.T) {
 	if *lib.OutDir == "" {
 		t.Skip("-out not given")
 	}
-	klog.LogToStderr(false)
+	kfs := flag.NewFlagSet("klog", flag.ContinueOnError)
+	klog.InitFlags(kfs)
+	kfs.Set("logtostderr", "false")
+	kfs.Set("alsologtostderr", "false")
+	kfs.Set("stderrthreshold", "FATAL")
 	klog.SetOutput(io.Discard)
 	r := lib.Rand()
 	pool := buildPool(r)
@@ -1174,7 +1179,7 @@ Local Open Scope Z_scope.
 	}
 	fmt.Fprintf(&hdr, "Definition sha_tab : list (bytes * bytes) := %s.\n", lib.List(shaTab))
 	w := lib.NewWriter(hdr.String(), 60)
-	n := lib.Count(150, 4000)
+	n := lib.Count(300, 5000)
 
 	for id := 0; id < n; id++ {
 		spec := genCase(r, pool, id)
@@ -1193,10 +1198,19 @@ func emit(w *lib.Writer, nm *namer, spec *caseSpec, s *sim, out outcome) {
 		}
 	}
 	mode := "MExact"
+	obsPasses := s.passes
 	if parallel {
 		mode = "MSorted"
 		if midFault {
+			// which batches were stored before a fault stopped a concurrent pass depends on the
+			// schedule, and so does everything after it: the model comparison stops at that pass
 			mode = "MLoose"
+			for i, p := range s.passes {
+				if p.abortFault || p.malformedServed {
+					obsPasses = s.passes[:i+1]
+					break
+				}
+			}
 		}
 	}
 	tags := []string{"mode:" + mode, "ep:" + spec.ep, "dest0:" + spec.dest0Kind, "final:" + out.final,
@@ -1333,7 +1347,7 @@ func emit(w *lib.Writer, nm *namer, spec *caseSpec, s *sim, out outcome) {
 	// ---------------- Coq term
 	var passes []string
 	var passesJ []interface{}
-	for _, p := range s.passes {
+	for _, p := range obsPasses {
 		stream := append([]*obsReq{}, p.stream...)
 		get := append([][2]int64{}, p.get...)
 		if parallel {
@@ -1462,7 +1476,7 @@ func emit(w *lib.Writer, nm *namer, spec *caseSpec, s *sim, out outcome) {
 	for _, ps := range spec.scripts {
 		scs = append(scs, coqScript(ps))
 	}
-	if s.overflow {
+	if s.overflow && mode != "MLoose" {
 		tag("overflow:more-passes-than-scripted")
 		passes = append(passes, "{| op_sth := false; op_cons := None; op_get := []; op_stream := [] |}")
 	}
